@@ -376,6 +376,16 @@ def _(v):
         except Exception as ex:
             bad.append((text, repr(ex)[:80]))
     v.prove("every_written_species_on_its_written_side", not bad, detail=repr(bad[:3]))
+    # ... and such a key survives print -> parse, also next to an empty side (the printed text then ends with the arrow)
+    lost = []
+    for obj in (Equilibrium({"CH2=CH2": 1, "H2": 1}, {"CH3CH3": 1}, 5.0), Equilibrium({"CH2=CH2": 1}, {}, checks=()), Reaction({"a->b": 1}, {}, 2.0), Reaction({}, {"a->b": 2}, 2.0)):
+        try:
+            back = type(obj).from_string(str(obj), checks=())
+            if not (back == obj and dict(back.reac) == dict(obj.reac) and dict(back.prod) == dict(obj.prod)):
+                lost.append((str(obj), dict(back.reac), dict(back.prod)))
+        except Exception as ex:
+            lost.append((str(obj), repr(ex)[:80]))
+    v.prove("print_parse_with_an_arrow_in_the_key", not lost, detail=repr(lost[:3]))
     accepted = []
     for cls, text in ((Reaction, "A -> B -> C"), (Equilibrium, "A = B = C"), (Reaction, "A -> B + C -> D; 3")):
         try:
